@@ -99,3 +99,8 @@ def run(ctx):
     rnd = random.Random(ctx.seed * 7919 + 101)
     scens = scenarios(rnd, quick, JUDGE)
     run_family(ctx, scens, 400 if quick else 15000, "C01")
+
+
+def replay_witness(ctx, witness):
+    from adapters import poolsim
+    return poolsim.replay_witness(ctx, witness)
